@@ -2,6 +2,7 @@ package mon
 
 import (
 	"bytes"
+	"encoding/base64"
 	"fmt"
 	"math/rand"
 	"os"
@@ -45,7 +46,7 @@ func c12Corpus(seed int64, n int) []string {
 
 func cfgStr(s string) *cfg.Val { v := cfg.Str(s); return &v }
 
-var c12Snips = []string{"~", "null", "[]", "{}", "[1, [2, [3]]]", "{a: {b: {c: 1}}}", "!!binary aGVsbG8=", "!!float 1", "!!str 5", "!!int \"5\"", "&anc x", "*anc", "<<: {a: 1}", "? [complex, key]\n: v", "|\n  block\n  text", ">-\n  folded", "0x1F", "0o17", "1_000", ".inf", "-.inf", ".NaN", "1e400", "-0", "2001-12-14t21:59:43.10-05:00", "2002-12-14", "yes", "on", "~", "\"\\u0000\"", "\"\\ud800\"", "'it''s'", "@", "@@", "%", "%%", "%%%", "!value", "!value ", "!tagged", "!tagged  ", "$gontainer", "$gontainer2", "%a(%", "%a()%", "%todo(", "%env(\"X\", )%", "%envInt(\"X\", 1.5)%", "9223372036854775808", "-9223372036854775809", "18446744073709551616", "!!set {a, b}", "!!omap [a: 1]", "- - - a", "{a: 1, a: 2}", "\ufeff", "\u2028", "\t", "#", "---", "...", "--- a\n--- b"}
+var c12Snips = []string{"~", "null", "[]", "{}", "[1, [2, [3]]]", "{a: {b: {c: 1}}}", "!!binary aGVsbG8=", "!!binary \"/3NhbHQ6JXBlcHBlciU=\"", "!!binary /yUl/yVhJQ==", "!!float 1", "!!str 5", "!!int \"5\"", "&anc x", "*anc", "<<: {a: 1}", "? [complex, key]\n: v", "|\n  block\n  text", ">-\n  folded", "0x1F", "0o17", "1_000", ".inf", "-.inf", ".NaN", "1e400", "-0", "2001-12-14t21:59:43.10-05:00", "2002-12-14", "yes", "on", "~", "\"\\u0000\"", "\"\\ud800\"", "'it''s'", "@", "@@", "%", "%%", "%%%", "!value", "!value ", "!tagged", "!tagged  ", "$gontainer", "$gontainer2", "%a(%", "%a()%", "%todo(", "%env(\"X\", )%", "%envInt(\"X\", 1.5)%", "9223372036854775808", "-9223372036854775809", "18446744073709551616", "!!set {a, b}", "!!omap [a: 1]", "- - - a", "{a: 1, a: 2}", "\ufeff", "\u2028", "\t", "#", "---", "...", "--- a\n--- b"}
 
 // mutate applies a few byte/token level edits.
 func mutate(r *rand.Rand, s string, corpus []string) string {
@@ -207,6 +208,24 @@ decorators:
 			*n = saved
 		}
 	}
+	// strings that are not valid UTF-8 can only be written as !!binary scalars: every scalar position gets byte strings with
+	// stray continuation bytes, truncated and overlong sequences, encoded surrogates and NULs next to `%` tokens and the
+	// sigils of the special argument forms
+	bins := []string{"\xff", "\xffsalt:%q%", "%\xff%", "%q\xff%", "\xe2\x82", "a\xe2\x82%q%", "\xed\xa0\x80%q%", "\xf8\x88\x80\x80\x80%%", "%%\xff%%", "\xff%", "\x00%q%\x00",
+		"@t\xff", "\xff@t", "!value \xffpa.Global", "!tagged \xfftg", "$gontainer\xff", "\xfe\xff%fn(\"\xff\")%", "\xc0\x80%q%\xc0", "\x80\x80\x80%q%%q%", "pa.\xffNew", "Get\xff"}
+	for _, n := range nodes {
+		if n.Kind != yaml.ScalarNode {
+			continue
+		}
+		saved := *n
+		for _, bs := range bins {
+			*n = yaml.Node{Kind: yaml.ScalarNode, Tag: "!!binary", Value: base64.StdEncoding.EncodeToString([]byte(bs))}
+			if b, err := yaml.Marshal(&root); err == nil {
+				out = append(out, string(b))
+			}
+			*n = saved
+		}
+	}
 	// keys of other kinds, merge keys, aliases across sections, deep nesting, huge names
 	out = append(out,
 		"services:\n  ? [a, b]\n  : {value: X}\n",
@@ -232,7 +251,7 @@ var rePanic = regexp.MustCompile(`(?m)^(panic:|fatal error:|goroutine \d+ \[)`)
 
 func checkC12(c *Ctx) error {
 	nMut := c.Pick(9000, 120000)
-	c.Rule = fmt.Sprintf("(1) %d seeded byte/token-level mutants of a corpus of valid and invalid configurations (flip, delete, duplicate, splice, snippet insertion incl. anchors/aliases/tags/merge keys/timestamps/huge numbers, indentation changes, long tokens) x random flag sets x 1-3 files and patterns x (a quarter of the runs) an extra directory entry the patterns also match (dangling link, link loop, directory, link to a directory or device, empty file, glob characters or 240 bytes in the name, the same file through a link), through the real binary under a watchdog; (2) schema-aware type confusions: every value position of a template configuration replaced by 20 node kinds, plus non-scalar keys, merge keys, aliases across sections, 10 000-deep nesting, 1 MiB names; (3) thorough tier: native coverage-guided fuzzing of the build command in-process (go test -fuzz, iteration-bounded). Oracle: exit status in {0,1}, no panic/fatal error/goroutine dump on stderr, CLI contract (report consistent; failing run leaves -o untouched; success leaves a parsable file), run time under 1000x the normal time (a timeout only counts after it reproduces twice). distinct = distinct input bytes; non-trivial = input differs from every corpus entry", nMut)
+	c.Rule = fmt.Sprintf("(1) %d seeded byte/token-level mutants of a corpus of valid and invalid configurations (flip, delete, duplicate, splice, snippet insertion incl. anchors/aliases/tags/merge keys/timestamps/huge numbers, indentation changes, long tokens) x random flag sets x 1-3 files and patterns x (a quarter of the runs) an extra directory entry the patterns also match (dangling link, link loop, directory, link to a directory or device, empty file, glob characters or 240 bytes in the name, the same file through a link), through the real binary under a watchdog; (2) schema-aware type confusions: every value position of a template configuration replaced by 20 node kinds, every scalar position by 21 !!binary byte strings that are not valid UTF-8 (next to % tokens and argument sigils), plus non-scalar keys, merge keys, aliases across sections, 10 000-deep nesting, 1 MiB names; (3) thorough tier: native coverage-guided fuzzing of the build command in-process (go test -fuzz, iteration-bounded). Oracle: exit status in {0,1}, no panic/fatal error/goroutine dump on stderr, CLI contract (report consistent; failing run leaves -o untouched; success leaves a parsable file), run time under 1000x the normal time (a timeout only counts after it reproduces twice). distinct = distinct input bytes; non-trivial = input differs from every corpus entry", nMut)
 	c.Assumptions = []string{"inputs whose reference structure would have very many elementary cycles are excluded by construction (mutants of sparse configurations; the fuzz target skips inputs with more than 40 reference markers)", "coverage-guided mutation is not seedable: crashers are saved as replay files"}
 	w := c.W
 	corpus := c12Corpus(c.Seed, c.Pick(120, 600))
